@@ -97,7 +97,7 @@ func taskObs(msg string) string {
 
 func genC11(c *Ctx) error {
 	c.ShardSize = 400
-	c.Notes["rule"] = "entry points (createIndex, batchExecute, swapDone, multiSwapDone, executeTasks, the five robot functions, 14 other methods of all kinds incl. swap / multi-swap / admin-only ones, an unknown function) x caller identities (robot certificate, configuration holding its SKI or its hashed certificate or another identity's key, admin-OU certificate, ordinary certificate, RSA certificate, garbage, empty creator) x configurations (subsets of 8 disabled functions - among them a swap and a multi-swap method, which may be disabled by name while their switch is off -, both swap switches); the same functions as single signed tasks through executeTasks; Init with every identity (also certificates with no organisational unit, an empty one, several); admin-only methods signed by admin / issuer / stranger through batches and tasks. Observed: gate verdict class and whether the ledger changed. Non-trivial: all (each is a distinct decision point)."
+	c.Notes["rule"] = "entry points (createIndex, batchExecute, swapDone, multiSwapDone, executeTasks, the five robot functions, 14 other methods of all kinds incl. swap / multi-swap / admin-only ones, an unknown function) x caller identities (robot certificate, configuration holding its SKI or its hashed certificate or another identity's key, admin-OU certificate, ordinary certificate, RSA certificate, garbage, empty creator, identities whose PEM data holds two certificates - the first is the caller's) x configurations (subsets of 8 disabled functions - among them a swap and a multi-swap method, which may be disabled by name while their switch is off -, both swap switches); the same functions as single signed tasks through executeTasks; Init with every identity (also certificates with no organisational unit, an empty one, several); admin-only methods signed by admin / issuer / stranger through batches and tasks. Observed: gate verdict class and whether the ledger changed. Non-trivial: all (each is a distinct decision point)."
 	rng := c.Rng
 	w := NewWorld()
 	rsa := NewRSAIdentity("rsa", "client")
@@ -108,6 +108,11 @@ func genC11(c *Ctx) error {
 		{"rsa", rsa, rsa.Creator, "(Creator false 0 14 false)"},
 		{"garbage", nil, []byte{1, 2, 3, 4, 5}, "(Creator false 0 15 false)"},
 		{"empty", nil, nil, "(Creator false 0 0 false)"},
+		// several certificates in the identity's PEM data: the first one is the caller's
+		{"bundle user+robot", w.Client, bundleCreator(w.Client, w.Robot), "(Creator true 3 16 false)"},
+		{"bundle robot+user", w.Robot, bundleCreator(w.Robot, w.Client), "(Creator true 1 17 false)"},
+		{"bundle user+adminOU", w.Client, bundleCreator(w.Client, w.Admin), "(Creator true 3 18 false)"},
+		{"bundle adminOU+user", w.Admin, bundleCreator(w.Admin, w.Client), "(Creator true 2 19 true)"},
 	}
 	robotKeys := []struct {
 		hexKey string
